@@ -203,6 +203,7 @@ class Facts:
         self.consts = {}
         self.adts = {}
         self.statics = []
+        self.const_statics = {}
         self.unsafe_sites = []
         self.by_target = {}
         for d in docs:
@@ -220,6 +221,9 @@ class Facts:
             for s in d["statics"]:
                 s = dict(s, target=tgt)
                 self.statics.append(s)
+                # an immutable static without interior mutability is a constant with an address
+                if not s["mutable"] and not s["thread_local"] and s.get("freeze") and "value" in s:
+                    self.const_statics.setdefault(s["path"], s)
             for u in d["unsafe_sites"]:
                 self.unsafe_sites.append(dict(u, target=tgt))
 
@@ -247,7 +251,7 @@ class Facts:
         return res[0]
 
     def const_value(self, path):
-        c = self.consts.get(path)
+        c = self.consts.get(path) or self.const_statics.get(path)
         if c is None:
             raise Broken(f"constant not found: {path}")
         return c.get("value")
